@@ -14,6 +14,24 @@ inductive BValue where
   | dict (entries : List (Bytes × BValue))
   deriving Repr, Inhabited
 
+mutual
+/-- Boolean equality (the nested inductive type has no derived `DecidableEq`); used by tests only. -/
+def beqV : BValue → BValue → Bool
+  | .int a, .int b => a == b
+  | .str a, .str b => a == b
+  | .list a, .list b => beqL a b
+  | .dict a, .dict b => beqD a b
+  | _, _ => false
+def beqL : List BValue → List BValue → Bool
+  | [], [] => true
+  | a :: as, b :: bs => beqV a b && beqL as bs
+  | _, _ => false
+def beqD : List (Bytes × BValue) → List (Bytes × BValue) → Bool
+  | [], [] => true
+  | (k, a) :: as, (k', b) :: bs => k == k' && beqV a b && beqD as bs
+  | _, _ => false
+end
+
 /-- Lexicographic order on byte strings (`Vec<u8>::cmp`). -/
 def bytesLt : Bytes → Bytes → Bool
   | [], [] => false
